@@ -1,6 +1,7 @@
 """C15 — no response can crash the client.  PARTIAL: the model starts at decoded blocks."""
-import glob, json, os, shutil
+import glob, json, os, shutil, subprocess, tempfile
 import vlib
+from props import _bytes
 
 
 def check(run):
@@ -45,6 +46,10 @@ def check(run):
     run.obligation("correspondence: model = implementation on every structured reply", ok)
     if not ok and not run.violations:
         run.violation("correspondence-broken", "case files could not be evaluated", dict(notes=run.notes), no_input=True)
+    # byte-level model: every scripted reply body (raw mutations included) and the re-encoded variants
+    bstats = _bytes.evaluate(run, wd, "bytes_C15", "reply bodies through client.Execute and request.Decode")
+    if bstats:
+        run.cov["bytes_model"] = bstats
     if not env["props_ok"] or not env["coq_ok"]:
         run.violation("proof-broken", "Coq development or Properties_C15.v no longer checks", dict(log=env["props_log"][-1500:]), no_input=True)
     run.cov.update(evaluations=stats["replies"], distinct_nontrivial=len(stats["distinct_signatures"]),
@@ -63,5 +68,8 @@ def check(run):
 
 
 def replay(path):
+    doc = json.load(open(path))
+    if str(doc.get("key", "")).startswith("bytes-model:") and (doc.get("replay") or {}).get("body_hex") is not None:
+        return _bytes.replay(doc)
     print(open(path).read())
     return 0
